@@ -104,6 +104,8 @@ def detect_one(sid):
     try:
         shutil.copytree('/repo/yalafi', os.path.join(tmp, 'yalafi'),
                         ignore=shutil.ignore_patterns('__pycache__'))
+        if os.path.exists(os.path.join('/repo', 'list-of-macros.md')):
+            shutil.copy(os.path.join('/repo', 'list-of-macros.md'), tmp)
         rc, out = sh('git apply --unsafe-paths --directory=%s %s' % (tmp, os.path.join(SEEDED, sid, 'patch.diff')),
                      cwd=tmp)
         if rc:
